@@ -3,7 +3,7 @@
     adapters).  Only statements here; proofs in FVP.Sched_proofs / FVP.Adapters_proofs. *)
 From Coq Require Import List ZArith Bool.
 From FV Require Import Base Sched SchedSparse.
-From FVP Require Import Adapters_proofs Sched_proofs SchedSparse_proofs.
+From FVP Require Import Adapters_proofs Sched_proofs SchedSparse_proofs SparseC01_proofs.
 Import ListNotations.
 Open Scope Z_scope.
 
@@ -66,11 +66,29 @@ Proof. exact run_good. Qed.
 (** The correspondence check of C01 evaluates FV.SchedSparse — the scheduler model generalised to components that
     publish their outputs only at every p-th update (the driver reads the time of the OUTPUT, not its owner's clock).
     With all periods 1 it is the model of the theorems above: same outcome, same event trace, same final times, for
-    every composition, end time and fuel.  (For periods > 1 the generalisation is tied to the code by the
-    correspondence only.) *)
+    every composition, end time and fuel. *)
 Theorem C01_sparse_model_refines_dense :
   forall cs endt fuel, sp_model (dense_as_sparse (cs, endt, fuel)) = sched_model (cs, endt, fuel).
 Proof. exact sparse_refines_dense. Qed.
+
+(** The property itself for sparse publishers, all publication periods [pe]: whenever the driver advances [u], every
+    dependency of [u] is served for [u]'s announced time with respect to what has actually been PUBLISHED (the source
+    view [with_time st pub] of the state) ... *)
+Theorem C01_available_sparse :
+  forall fuel cs pe st pub acc c chain tgt u st' pub' acc' e,
+    update_rec_sp fuel cs pe st pub acc c chain tgt = USUpdated u st' pub' acc' e ->
+    servedn fuel cs (with_time st pub) u (next_time cs st u).
+Proof.
+  intros fuel cs pe st pub acc c chain tgt u st' pub' acc' e H.
+  destruct (update_rec_sp_props fuel cs pe st pub acc c chain tgt) as [_ HB].
+  destruct (HB _ _ _ _ _ H) as [_ [_ Hs]]. exact Hs.
+Qed.
+
+(** ... and no run of a valid composition ends with a time or no-data error, whatever the periods. *)
+Theorem C01_run_never_fails_on_data_sparse :
+  forall cs pe endt fuel o st acc,
+    wf cs -> run_sp fuel cs pe endt = (o, st, acc) -> o <> OTime /\ o <> ONoData.
+Proof. intros cs pe endt fuel o st acc. apply run_sp_good. Qed.
 
 (** Non-vacuity: a valid composition with a delay in front of a buffering adapter (finding F2), a
     pull-based component read through two outputs (finding F9) and a DelayToPull link. *)
@@ -91,6 +109,8 @@ Proof. split; [apply wf_b_sound; vm_compute; reflexivity|vm_compute; auto]. Qed.
 
 Print Assumptions C01_available.
 Print Assumptions C01_sparse_model_refines_dense.
+Print Assumptions C01_available_sparse.
+Print Assumptions C01_run_never_fails_on_data_sparse.
 Print Assumptions C01_available_through_pull_based.
 Print Assumptions C01_checked_time_is_requested_time.
 Print Assumptions C01_pull_ok.
